@@ -96,6 +96,8 @@ FRAGS = [
     ("instcycle", "var ca = A.new(); var cb = A.new(); ca.x = cb; cb.x = ca;", "ca"),
     ("mapcycle", "var mc = {}; mc.insert(1, mc);", "mc"),
     ("closurecycle", "var rec = nil; rec = || { return rec; };", "rec"),
+    ("boundcycle", "var bc = A.new(); bc.f = bc.m; bc.f();", "bc"),
+    ("boundcycle2", "var b1 = []; var x1 = b1.push; var b3 = []; var y1 = b3.push; b1.push(y1); b3.push(x1);", "b1"),
     ("tuplekeymap", "var tk = (i, 1); var mt = {tk: v}; mt.has_key(tk);", None),
 ]
 FRAG_BY_NAME = {f[0]: f for f in FRAGS}
@@ -251,11 +253,15 @@ def check_programs(ctx, specs, quick, tag, want_pacing=True):
     for sp in specs:
         lines_rel.append("c16 log=1,dropvm=1 " + hx(render(sp, n1)))
         lines_rel.append("c16 dropvm=1 " + hx(render(sp, n2)))
-        dsp = dict(sp, ballast=min(sp["ballast"], 1500))
+        dsp = dict(sp, ballast=min(sp["ballast"], 300 if quick else 1500))
         lines_dbg.append("c16 log=1,dropvm=1 " + hx(render(dsp, d1)))
         lines_dbg.append("c16 dropvm=1 " + hx(render(dsp, d2)))
+    import time
+    t0 = time.time()
     rrel = yvlib.run_harness(rel, lines_rel, case_timeout_ms=30000, recycle=8)
+    t1 = time.time()
     rdbg = yvlib.run_harness(dbg, lines_dbg, case_timeout_ms=60000, recycle=8)
+    log("[C16] %d programs: release runs %.1fs, debug runs %.1fs" % (len(specs), t1 - t0, time.time() - t1))
     terms, term_ix = [], []
     results = []
     for ix, sp in enumerate(specs):
@@ -308,8 +314,10 @@ def check_programs(ctx, specs, quick, tag, want_pacing=True):
         if want_pacing and rl:
             term_ix.append(ix)
             terms.append(pacing_term(rl, c))
+    t2 = time.time()
     vals = yvlib.coq_eval(["YV:PacingRun"], terms, shard_size=max(1, min(8, (len(terms) + yvlib.NPROC - 1) // yvlib.NPROC)),
-                          tag="C16" + tag) if terms else []
+                          tag="C16" + tag, preamble="Open Scope string_scope.") if terms else []
+    log("[C16] replay of %d logs (%d records) in Coq: %.1fs" % (len(terms), sum(r["records"] for r in results), time.time() - t2))
     for ix, val in zip(term_ix, vals):
         info = results[ix]
         if val is None or val == "BADLOG":
@@ -409,7 +417,7 @@ def check_range_cases(ctx, cases, tag):
     recs = yvlib.run_harness(rel, ["c16 dropvm=1 " + hx(range_program(r)) for r in cases], case_timeout_ms=20000)
     off = 2 ** 40
     terms = ['run_range_case %d%%N "%s"%%string' % (size, ";".join("%d %d" % (b + off, e + off) for b, e in r)) for r in cases]
-    vals = yvlib.coq_eval(["YV:PacingRun"], terms, shard_size=40, tag="C16rc" + tag)
+    vals = yvlib.coq_eval(["YV:PacingRun"], terms, shard_size=40, tag="C16rc" + tag, preamble="Open Scope string_scope.")
     evict = 0
     for reqs, rec, val in zip(cases, recs, vals):
         run = Run(rec)
@@ -472,6 +480,7 @@ def run(ctx):
         ctx.notes.append("constants in common.rs (%s, %s) differ from the property text (2, 65536): the bound is checked with the stated ones" % (
             c.get("HEAP_GROWTH_FACTOR"), c.get("HEAP_INIT_BYTES_MAX")))
     nprog = 40 if quick else 420
+    cycle_ok = bound_method_cycle(ctx)
     specs = []
     # every fragment alone once (kept in a ring when it can be), then random combinations
     singles = [{"frags": [f[0]], "kept": [f[0]] if f[2] else [], "ring": 5 if f[2] else 0, "wrap": WRAPS[i % len(WRAPS)],
@@ -479,6 +488,11 @@ def run(ctx):
     if quick:
         singles = rng.sample(singles, 10)
     specs = singles + [gen_spec(rng, quick) for _ in range(nprog - len(singles))]
+    if not cycle_ok:
+        # the collector would hang on these (known class gc_bound_method_regrey): keep them out of the loop bodies
+        for sp in specs:
+            sp["frags"] = [f for f in sp["frags"] if not f.startswith("boundcycle")] or ["vec2"]
+            sp["kept"] = [k for k in sp["kept"] if k in sp["frags"]]
     # one program with a large live set: the threshold follows 2 x survivors well above the initial budget
     specs.append({"frags": ["vec2", "tuple", "inst"], "kept": [], "ring": 0, "wrap": "top", "ballast": 4000, "probe": 50})
     results = check_programs(ctx, specs, quick, "loops")
@@ -486,7 +500,6 @@ def run(ctx):
     shrink_first(ctx, quick)
     rcases = [gen_range_case(rng) for _ in range(30 if quick else 400)]
     evict = check_range_cases(ctx, rcases, "cases")
-    cycle_ok = bound_method_cycle(ctx)
     nontriv = {render(r["spec"], 0) for r in results if r["nontrivial"]}
     trivial = sum(1 for r in results if r.get("trivial"))
     from collections import Counter
